@@ -34,6 +34,12 @@
 //	secret:srp_a     <- content of field GA of telegram/internal/srp.SrpAnswer (A = g^a mod p, the value
 //	                    sent; g and p come from the server, so a is its only source of entropy)
 //
+// Definition sites (sites.go): every alternative origin of a value that reaches an anchor - through phi,
+// parameters/arguments, returned values, copies, local cells - is a node "site of <secret>: ..." listed in
+// `sites`; the Coq check holds each of them to the standard of the secret (an OS source flows into it,
+// nothing reproducible does); a constant, zero, caller-supplied or re-read (cached) origin is a site
+// without any source and fails.
+//
 // Output is deterministic: nodes sorted by key, ids = rank, dependency lists sorted; FlowGraph.v is
 // rewritten only when its content changes.  flowgraph.json carries statistics and, per secret, the
 // shortest path from every non-neutral source (diagnostics for the check; Coq decides).
@@ -557,6 +563,7 @@ type secretOut struct {
 	Sources   map[string][]string `json:"sources"`
 	BadPaths  [][]string          `json:"bad_paths"`
 	GoodPaths [][]string          `json:"good_paths"`
+	Sites     []secretOut         `json:"sites,omitempty"`
 }
 
 func main() {
@@ -587,6 +594,18 @@ func main() {
 	}
 	sNonce, sNew, sB, sA := sink("nonce"), sink("new_nonce"), sink("dh_b"), sink("srp_a")
 	anchors := map[*node][]string{}
+	startV := map[*node][]ssa.Value{}
+	startU := map[*node][]ssa.Instruction{}
+	start := func(s *node, v ssa.Value, u ssa.Instruction) {
+		startV[s] = append(startV[s], v)
+		startU[s] = append(startU[s], u)
+	}
+	startField := func(s *node, k fieldKey) {
+		vs, us := t.storedInto(k)
+		for i := range vs {
+			start(s, vs[i], us[i])
+		}
+	}
 	anchor := func(s *node, d *node) {
 		if d != nil {
 			t.add(s, d)
@@ -605,8 +624,10 @@ func main() {
 			switch t.fieldName[k] {
 			case "Nonce":
 				anchor(sNonce, t.F(k, 'm'))
+				startField(sNonce, k)
 			case "NewNonce":
 				anchor(sNew, t.F(k, 'm'))
+				startField(sNew, k)
 			}
 		}
 	}
@@ -618,11 +639,13 @@ func main() {
 					if len(x.Results) > 0 {
 						anchor(sB, t.N(x.Results[0], 'v'))
 						anchor(sB, t.N(x.Results[0], 'm'))
+						start(sB, x.Results[0], x)
 					}
 				case ssa.CallInstruction:
 					if c := x.Common().StaticCallee(); c != nil && c.String() == "(*math/big.Int).Exp" && len(x.Common().Args) == 4 {
 						anchor(sB, t.N(x.Common().Args[2], 'v'))
 						anchor(sB, t.N(x.Common().Args[2], 'm'))
+						start(sB, x.Common().Args[2], x)
 					}
 				}
 			}
@@ -631,6 +654,16 @@ func main() {
 	for _, k := range fks { // the SRP public value A = g^a mod p that the client sends: a is combined into it
 		if k.typ == modPath+"/telegram/internal/srp.SrpAnswer" && t.fieldName[k] == "GA" {
 			anchor(sA, t.F(k, 'm'))
+			startField(sA, k)
+		}
+	}
+	// definition sites (sites.go): every alternative origin of an anchored value is a node of its own
+	secretsL := []*node{sNonce, sNew, sB, sA}
+	siteNodes := map[*node][]*node{}
+	for _, s := range secretsL {
+		siteNodes[s] = t.sitesOf(strings.TrimPrefix(s.label, "secret:"), startV[s], startU[s])
+		for _, sn := range siteNodes[s] {
+			t.add(s, sn)
 		}
 	}
 	// Seed sites: every one is a node (and a dependency of the global source); the ones reachable
@@ -695,14 +728,18 @@ func main() {
 		fmt.Fprintf(&b, "  (%d, (%s, %s))%s (* %s *)\n", n.id, kindName[n.kind], ids(d), sep, lab)
 	}
 	b.WriteString("].\n")
-	secrets := []*node{sNonce, sNew, sB, sA}
+	secrets := secretsL
 	fmt.Fprintf(&b, "Definition secrets : list N := %s.\n", ids(secrets))
 	fmt.Fprintf(&b, "Definition seed_sites : list N := %s.\n", ids(sortN(seedCtor)))
+	var sl []string
+	for _, s := range secrets {
+		sl = append(sl, fmt.Sprintf("(%d, %s)", s.id, ids(sortN(append([]*node(nil), siteNodes[s]...)))))
+	}
+	fmt.Fprintf(&b, "(* definition sites: (secret, alternative origins of its value) *)\nDefinition sites : list (N * list N) := [%s].\n", strings.Join(sl, "; "))
 
 	// per-secret statistics and shortest paths (diagnostics for the check; Coq decides)
-	var outS []secretOut
-	for _, s := range secrets {
-		so := secretOut{Name: strings.TrimPrefix(s.label, "secret:"), ID: s.id, Anchors: anchors[s], Sources: map[string][]string{}}
+	statsOf := func(s *node) secretOut {
+		so := secretOut{Name: s.label, ID: s.id, Sources: map[string][]string{}}
 		parent := map[*node]*node{s: nil}
 		order := []*node{s}
 		for i := 0; i < len(order); i++ {
@@ -734,6 +771,19 @@ func main() {
 		}
 		for _, l := range so.Sources {
 			sort.Strings(l)
+		}
+		return so
+	}
+	var outS []secretOut
+	for _, s := range secrets {
+		so := statsOf(s)
+		so.Name, so.Anchors = strings.TrimPrefix(s.label, "secret:"), anchors[s]
+		for _, sn := range sortN(append([]*node(nil), siteNodes[s]...)) {
+			st := statsOf(sn)
+			if len(st.GoodPaths) > 1 {
+				st.GoodPaths = st.GoodPaths[:1]
+			}
+			so.Sites = append(so.Sites, st)
 		}
 		outS = append(outS, so)
 	}
